@@ -7,8 +7,16 @@ eigen-solver CONTRACT `IsEigenpairs A B W Q` ("the library returns pairs with `A
 return genuine pairs closest to the shift is external (checked numerically by the harness oracle only).
 All statements hold for every size `n`, every number of modes `m`, every field of scalars (ℚ, ℝ, ℚ(i), ℂ), standard
 (`B = none`) and generalised problems, and every sorting function.
+Sensitivities (C01 for EigenSolve): `_dense_sens`, `_sparse_eigval_sens`, `_sparse_eigvec_sens` — the linearised-constraint
+adjoint identities (any field; whole module with the skip rules, `None` seeds and `.real` rules) and, over ℝ / ℂ, the
+statement that the model's outputs ARE the derivative along every differentiable curve of eigenpairs (`HasDerivAt`).
+The sparse formulas are proved for SYMMETRIC pencils (all perturbation directions); they are wrong otherwise (findings
+eigensolve-sparse-complex-hermitian-sens and corpus/defects/pending/c01_eigensolve_sparse_nonsymmetric.py).
 -/
 import PymotoVerif.Lemmas.Eigen
+import PymotoVerif.Lemmas.EigenSens
+import PymotoVerif.Lemmas.EigenRank
+import PymotoVerif.Lemmas.EigenDeriv
 import Mathlib.Algebra.Order.Field.Basic
 import Mathlib.Algebra.Order.Field.Rat
 import Mathlib.Tactic.Positivity
@@ -16,7 +24,7 @@ import Mathlib.Tactic.Linarith
 import Mathlib.Tactic.NormNum
 
 namespace PymotoVerif.C11
-open PymotoVerif PymotoVerif.LinSys PymotoVerif.Eigen Matrix
+open PymotoVerif PymotoVerif.LinSys PymotoVerif.Eigen Matrix Filter Topology
 
 variable {α : Type*} [Field α]
 
@@ -183,15 +191,19 @@ example : historyRun none (HistState.init none) [(true, none, true), (false, non
 /-! ## sensitivities (for C01) -/
 
 /-
-Full statement (not proved): over ℝ / ℂ, for a simple eigenvalue, `denseSens` is the transposed Jacobian of
-`(A, B) ↦ (λ, Q)`. Proved below: the linearised-constraint adjoint identity for ONE mode of `_dense_sens` with complex
-data (no `.real`): missing are (i) the implicit-function theorem that turns it into a derivative, (ii) the (linear) sum
-over the modes with the skip rule and the `.real` rules for real inputs.
+The sensitivities are treated in two steps. (i) ALGEBRA (`…_linearised`, any field): for every tangent `(dA, dB, dλ, dq)` of
+the eigen-equation and of the normalisation at `(λ, q)` the seeds pair with `(dλ, dq)` as the model's outputs pair with
+`(dA, dB)`. (ii) CALCULUS (ℝ or ℂ, real curve parameter, entrywise `HasDerivAt`): along every differentiable curve of
+matrices with a differentiable curve of normalised eigenpairs, the tangent satisfies the linearised equations, hence
+`d/ds ⟨w, (λ, q)(s)⟩ = ⟪g_A, A'⟫ + ⟪g_B, B'⟫` — the statement of C01 for `EigenSolve`.
+NOT proved (external analysis): that a simple eigenvalue HAS a differentiable curve of eigenpairs (implicit-function
+theorem); it is a hypothesis of the `…_is_derivative` theorems. For a simple eigenvalue of a symmetric pencil the
+tangent exists and is unique (`eig_tangent_exists_unique`), so the hypothesis fixes the derivative.
 -/
 /-- Lee's bordered adjoint system: for every tangent `(dA, dB, dq, dλ)` of the eigen-equation and the normalisation at
 `(λ, q)`, `wq·dq + wλ dλ = ⟪g_A, dA⟫ + ⟪g_B, dB⟫` with `(g_A, g_B) = (−ν qᵀ, (λ ν + α/2 q) qᵀ)` of `_dense_sens`,
 under the contract of `np.linalg.solve` for the bordered system (solvable for a simple eigenvalue). -/
-theorem eig_dense_adjoint_partial {n : ℕ} (h2 : (2 : α) ≠ 0)
+theorem eig_dense_adjoint_linearised {n : ℕ} (h2 : (2 : α) ≠ 0)
     (linsolve : Matrix (Fin n ⊕ Unit) (Fin n ⊕ Unit) α → (Fin n ⊕ Unit → α) → (Fin n ⊕ Unit → α))
     (A B : Matrix (Fin n) (Fin n) α) (lam : α) (q wq : Fin n → α) (wlam : α)
     (hsolve : leeMatrix A B lam q *ᵥ linsolve (leeMatrix A B lam q) (Sum.elim wq fun _ => wlam)
@@ -256,14 +268,12 @@ theorem eig_dense_adjoint_partial {n : ℕ} (h2 : (2 : α) ≠ 0)
   field_simp
   ring
 
-/-
-Full statement (not proved): as above. Proved: `_dense_sens` for ALL modes — the sum over the modes with the code's skip
-rule (a mode whose eigenvector seed column and eigenvalue seed are both zero is skipped and contributes nothing), `None`
-seeds read as zero, `B = I` when absent — for complex data. Missing: the implicit-function theorem and the `.real` rules.
--/
+/- `_dense_sens` for ALL modes — the sum over the modes with the code's skip rule (a mode whose eigenvector seed column and
+eigenvalue seed are both zero is skipped and contributes nothing), `None` seeds read as zero, `B = I` when absent — for
+complex data (no `.real`); for real data see `eig_dense_sens_is_derivative`. -/
 /-- Lee's adjoint for the whole module: for every family of per-mode tangents of the eigen-equations and normalisations,
 `Σᵢ (dQ[:, i]·dqᵢ + dW[i] dλᵢ) = ⟪g_A, dA⟫ + ⟪g_B, dB⟫` with `(g_A, g_B) = _dense_sens(A, B, dW, dQ)`. -/
-theorem eig_dense_adjoint_sum_partial [DecidableEq α] {n m : ℕ} (h2 : (2 : α) ≠ 0) (R : RealPart α)
+theorem eig_dense_adjoint_sum_linearised [DecidableEq α] {n m : ℕ} (h2 : (2 : α) ≠ 0) (R : RealPart α)
     (linsolve : Matrix (Fin n ⊕ Unit) (Fin n ⊕ Unit) α → (Fin n ⊕ Unit → α) → (Fin n ⊕ Unit → α))
     (A : Matrix (Fin n) (Fin n) α) (B : Option (Matrix (Fin n) (Fin n) α))
     (W : Fin m → α) (Q : Matrix (Fin n) (Fin m) α)
@@ -291,8 +301,34 @@ theorem eig_dense_adjoint_sum_partial [DecidableEq α] {n m : ℕ} (h2 : (2 : α
       · right; simpa using fun h => hs ⟨h1, h⟩
       · left; simpa using h1
     simp only [hskip, Bool.false_eq_true, if_false]
-    exact eig_dense_adjoint_partial h2 linsolve A (B.getD 1) (W i) (fun r => Q r i) (fun r => dQ.getD 0 r i) (dW.getD 0 i)
+    exact eig_dense_adjoint_linearised h2 linsolve A (B.getD 1) (W i) (fun r => Q r i) (fun r => dQ.getD 0 r i) (dW.getD 0 i)
       (hsolve i hs) dA dB (dq i) (dlam i) (hlin i) (hnorm i)
+
+/-- `_dense_sens` with the `.real` rules for MIXED dtypes (`dA_i` is added as `np.real(dA_i)` unless `A` is complex, same for
+`B`; then the admissible direction `dA` / `dB` is real): `Re Σᵢ (dQ[:, i]·dqᵢ + dW[i] dλᵢ) = Re (⟪g_A, dA⟫ + ⟪g_B, dB⟫)`. -/
+theorem eig_dense_adjoint_sum_realpart [DecidableEq α] {n m : ℕ} (h2 : (2 : α) ≠ 0) (R : RealPart α)
+    (Acomplex Bcomplex : Bool)
+    (linsolve : Matrix (Fin n ⊕ Unit) (Fin n ⊕ Unit) α → (Fin n ⊕ Unit → α) → (Fin n ⊕ Unit → α))
+    (A : Matrix (Fin n) (Fin n) α) (B : Option (Matrix (Fin n) (Fin n) α))
+    (W : Fin m → α) (Q : Matrix (Fin n) (Fin m) α)
+    (dW : Option (Fin m → α)) (dQ : Option (Matrix (Fin n) (Fin m) α))
+    (hsolve : ∀ i, ¬((∀ r, dQ.getD 0 r i = 0) ∧ dW.getD 0 i = 0) →
+      leeMatrix A (B.getD 1) (W i) (fun r => Q r i) *ᵥ
+          linsolve (leeMatrix A (B.getD 1) (W i) (fun r => Q r i)) (Sum.elim (fun r => dQ.getD 0 r i) fun _ => dW.getD 0 i)
+        = Sum.elim (fun r => dQ.getD 0 r i) fun _ => dW.getD 0 i)
+    (dA dB : Matrix (Fin n) (Fin n) α)
+    (hdA : Acomplex = false → ∀ i j, R.IsReal (dA i j)) (hdB : Bcomplex = false → ∀ i j, R.IsReal (dB i j))
+    (dq : Fin m → Fin n → α) (dlam : Fin m → α)
+    (hlin : ∀ i, dA *ᵥ (fun r => Q r i) + A *ᵥ dq i - dlam i • (B.getD 1 *ᵥ fun r => Q r i)
+      - W i • (dB *ᵥ fun r => Q r i) - W i • (B.getD 1 *ᵥ dq i) = 0)
+    (hnorm : ∀ i, dq i ⬝ᵥ (B.getD 1 *ᵥ fun r => Q r i) + (fun r => Q r i) ⬝ᵥ (dB *ᵥ fun r => Q r i)
+      + (fun r => Q r i) ⬝ᵥ (B.getD 1 *ᵥ dq i) = 0) :
+    R.re (∑ i, ((fun r => dQ.getD 0 r i) ⬝ᵥ dq i + dW.getD 0 i * dlam i)) =
+      R.re (pair (denseSens R Acomplex Bcomplex linsolve A B W Q dW dQ).1 dA
+        + pair (denseSens R Acomplex Bcomplex linsolve A B W Q dW dQ).2 dB) := by
+  rw [eig_dense_adjoint_sum_linearised h2 R linsolve A B W Q dW dQ hsolve dA dB dq dlam hlin hnorm, R.re_add, R.re_add,
+    denseSens_re_pair_fst R Acomplex Bcomplex true true linsolve A B W Q dW dQ dA hdA (by simp),
+    denseSens_re_pair_snd R Acomplex Bcomplex true true linsolve A B W Q dW dQ dB hdB (by simp)]
 
 /-- non-vacuity: a tangent of the 1×1 problem `a q = λ b q`, `q b q = 1` at `a = 2, b = 1, λ = 2, q = 1` -/
 example : ∃ (dA dB : Matrix (Fin 1) (Fin 1) ℚ) (dq : Fin 1 → ℚ) (dlam : ℚ),
@@ -325,5 +361,302 @@ theorem eig_sparse_eigval_adjoint {n : ℕ} (A B : Matrix (Fin n) (Fin n) α) (h
 
 example : (!![2, 1; 1, 3] : Matrix (Fin 2) (Fin 2) ℚ)ᵀ = !![2, 1; 1, 3] := by
   ext i j; fin_cases i <;> fin_cases j <;> rfl
+
+/-! ### sparse path: eigenvector sensitivities (`_sparse_eigvec_sens`, Delissen 2022) -/
+
+/-- ONE mode of `_sparse_eigvec_sens`. For a SYMMETRIC pencil (`Aᵀ = A`, `Bᵀ = B`) with a simple eigenvalue `λ` and
+`qᵀBq = 1`, an inner solver that returns SOME solution of every consistent system with the singular matrix `(A − λB)ᵀ`,
+and EVERY perturbation `(dA, dB)` (symmetric or not) with its first-order perturbation `(dλ, dq)` (linearised
+eigen-equation and linearised normalisation): `w·dq = ⟪g_A, dA⟫ + ⟪g_B, dB⟫` with `(g_A, g_B) = (−v qᵀ, (α/2 q + λ v) qᵀ)`
+exactly the two dyads the code adds. (Symmetry of the pencil itself is essential — the code uses the right eigenvector as
+the left one; for complex Hermitian matrices see corpus/defects/c01_eigensolve_sparse_complex_hermitian.) -/
+theorem eig_sparse_eigvec_mode_adjoint {n : ℕ} (h2 : (2 : α) ≠ 0) (zsolveT : (Fin n → α) → (Fin n → α))
+    (A B : Matrix (Fin n) (Fin n) α) (hA : Aᵀ = A) (hB : Bᵀ = B) (lam : α) (q w : Fin n → α)
+    (hq : A *ᵥ q = lam • (B *ᵥ q)) (hqBq : q ⬝ᵥ (B *ᵥ q) = 1)
+    (hcontract : ∀ r, (∃ x, (A - lam • B)ᵀ *ᵥ x = r) → (A - lam • B)ᵀ *ᵥ zsolveT r = r)
+    (hsimple : ∀ x, (A - lam • B) *ᵥ x = 0 → ∃ c : α, x = c • q)
+    (dA dB : Matrix (Fin n) (Fin n) α) (dq : Fin n → α) (dlam : α)
+    (hlin : dA *ᵥ q + A *ᵥ dq - dlam • (B *ᵥ q) - lam • (dB *ᵥ q) - lam • (B *ᵥ dq) = 0)
+    (hnorm : dq ⬝ᵥ (B *ᵥ q) + q ⬝ᵥ (dB *ᵥ q) + q ⬝ᵥ (B *ᵥ dq) = 0) :
+    w ⬝ᵥ dq =
+      pair (vecMulVec (sparseEigvecMode zsolveT B lam q w).1.1 (sparseEigvecMode zsolveT B lam q w).1.2) dA
+      + pair (vecMulVec (sparseEigvecMode zsolveT B lam q w).2.1 (sparseEigvecMode zsolveT B lam q w).2.2) dB :=
+  sparseEigvecMode_adjoint h2 zsolveT A B hA hB lam q w hq hqBq
+    (eigvec_solve_of_contract zsolveT hA hB w hq hqBq hcontract hsimple) dA dB dq dlam hlin hnorm
+
+/-- the result does not depend on WHICH solution of the singular system the inner solver returns: two solvers that both
+meet the contract give the same two dyads (the orthogonalisation `v = vp − (vp·Bq) q` removes the kernel component) -/
+theorem eig_sparse_eigvec_solver_indep {n : ℕ} (z1 z2 : (Fin n → α) → (Fin n → α))
+    (A B : Matrix (Fin n) (Fin n) α) (hA : Aᵀ = A) (hB : Bᵀ = B) (lam : α) (q w : Fin n → α)
+    (hq : A *ᵥ q = lam • (B *ᵥ q)) (hqBq : q ⬝ᵥ (B *ᵥ q) = 1)
+    (hc1 : ∀ r, (∃ x, (A - lam • B)ᵀ *ᵥ x = r) → (A - lam • B)ᵀ *ᵥ z1 r = r)
+    (hc2 : ∀ r, (∃ x, (A - lam • B)ᵀ *ᵥ x = r) → (A - lam • B)ᵀ *ᵥ z2 r = r)
+    (hsimple : ∀ x, (A - lam • B) *ᵥ x = 0 → ∃ c : α, x = c • q) :
+    sparseEigvecMode z1 B lam q w = sparseEigvecMode z2 B lam q w := by
+  have hZ : (A - lam • B)ᵀ = A - lam • B := (pencil_range_of_simple hA hB hq hqBq hsimple).1
+  have hker : ∀ x, (A - lam • B)ᵀ *ᵥ x = 0 → ∃ c : α, x = c • q := by rw [hZ]; exact hsimple
+  rw [sparseEigvecMode_eq, sparseEigvecMode_eq,
+    eigvecAdj_unique z1 z2 A B lam q w hqBq hker (eigvec_solve_of_contract z1 hA hB w hq hqBq hc1 hsimple)
+      (eigvec_solve_of_contract z2 hA hB w hq hqBq hc2 hsimple)]
+
+/-- non-vacuity: `A = diag(4, 3)`, `B = diag(4, 1)`, `λ = 1`, `q = (1/2, 0)` (`qᵀBq = 1`); `A − λB = diag(0, 2)` is
+singular with kernel `span q`, and the solver `r ↦ (5, r₁/2)` (an arbitrary kernel component) meets the contract -/
+example : ∃ (A B : Matrix (Fin 2) (Fin 2) ℚ) (lam : ℚ) (q : Fin 2 → ℚ) (z : (Fin 2 → ℚ) → (Fin 2 → ℚ)),
+    Aᵀ = A ∧ Bᵀ = B ∧ A *ᵥ q = lam • (B *ᵥ q) ∧ q ⬝ᵥ (B *ᵥ q) = 1 ∧
+    (∀ r, (∃ x, (A - lam • B)ᵀ *ᵥ x = r) → (A - lam • B)ᵀ *ᵥ z r = r) ∧
+    (∀ x, (A - lam • B) *ᵥ x = 0 → ∃ c : ℚ, x = c • q) := by
+  refine ⟨!![4, 0; 0, 3], !![4, 0; 0, 1], 1, ![1 / 2, 0], fun r => ![5, r 1 / 2], ?_, ?_, ?_, ?_, ?_, ?_⟩
+  · ext i j; fin_cases i <;> fin_cases j <;> rfl
+  · ext i j; fin_cases i <;> fin_cases j <;> rfl
+  · funext i; fin_cases i <;> simp [Matrix.mulVec, dotProduct, Fin.sum_univ_two] <;> norm_num
+  · simp [Matrix.mulVec, dotProduct, Fin.sum_univ_two]; norm_num
+  · rintro r ⟨x, rfl⟩
+    funext i; fin_cases i <;> simp [Matrix.mulVec, dotProduct, Fin.sum_univ_two] <;> norm_num
+  · intro x hx
+    have h1 := congrFun hx 1
+    simp [Matrix.mulVec, dotProduct, Fin.sum_univ_two] at h1
+    norm_num at h1
+    refine ⟨2 * x 0, ?_⟩
+    funext i; fin_cases i
+    · simp; ring
+    · simpa using h1
+
+/-- `_sparse_eigvec_sens` for ALL modes: the eigenvalue part (`dW` given: modes with `dW[i] ≠ 0`), the eigenvector part
+(modes whose seed column is not identically zero — the code's `continue`), `B = I` when absent, and the `.real` rule for
+real `A` / `B` (then the direction `dA` / `dB` is real): for every family of per-mode tangents,
+`Re Σᵢ (dQ[:, i]·dqᵢ + dW[i] dλᵢ) = Re (⟪g_A, dA⟫ + ⟪g_B, dB⟫)` with `(g_A, g_B)` the DyadCarriers returned by the code. -/
+theorem eig_sparse_eigvec_adjoint_sum [DecidableEq α] {n m : ℕ} (h2 : (2 : α) ≠ 0) (R : RealPart α) (Areal Breal : Bool)
+    (zsolveT : Fin m → (Fin n → α) → (Fin n → α))
+    (A : Matrix (Fin n) (Fin n) α) (B : Option (Matrix (Fin n) (Fin n) α)) (hA : Aᵀ = A) (hB : (B.getD 1)ᵀ = B.getD 1)
+    (W : Fin m → α) (Q : Matrix (Fin n) (Fin m) α) (hpairs : IsEigenpairs A B W Q)
+    (hnormed : ∀ i, (fun r => Q r i) ⬝ᵥ applyB B (fun r => Q r i) = 1)
+    (dW : Option (Fin m → α)) (dQ : Matrix (Fin n) (Fin m) α)
+    (hcontract : ∀ i r, (∃ x, (A - W i • B.getD 1)ᵀ *ᵥ x = r) → (A - W i • B.getD 1)ᵀ *ᵥ zsolveT i r = r)
+    (hsimple : ∀ i x, (A - W i • B.getD 1) *ᵥ x = 0 → ∃ c : α, x = c • fun r => Q r i)
+    (dA dB : Matrix (Fin n) (Fin n) α)
+    (hdA : Areal = true → ∀ i j, R.IsReal (dA i j)) (hdB : Breal = true → ∀ i j, R.IsReal (dB i j))
+    (dq : Fin m → Fin n → α) (dlam : Fin m → α)
+    (hlin : ∀ i, dA *ᵥ (fun r => Q r i) + A *ᵥ dq i - dlam i • (B.getD 1 *ᵥ fun r => Q r i)
+      - W i • (dB *ᵥ fun r => Q r i) - W i • (B.getD 1 *ᵥ dq i) = 0)
+    (hnorm : ∀ i, dq i ⬝ᵥ (B.getD 1 *ᵥ fun r => Q r i) + (fun r => Q r i) ⬝ᵥ (dB *ᵥ fun r => Q r i)
+      + (fun r => Q r i) ⬝ᵥ (B.getD 1 *ᵥ dq i) = 0) :
+    R.re (∑ i, ((fun r => dQ r i) ⬝ᵥ dq i + dW.getD 0 i * dlam i)) =
+      R.re (pair (sparseEigvecSens R Areal Breal zsolveT B W Q dW dQ).1.toDense dA
+        + pair (sparseEigvecSens R Areal Breal zsolveT B W Q dW dQ).2.toDense dB) := by
+  rw [sparseEigvecSens_re_pair R Areal Breal zsolveT B W Q dW dQ dA dB hdA hdB]
+  congr 1
+  refine Finset.sum_congr rfl fun i _ => ?_
+  have hqi : A *ᵥ (fun r => Q r i) = W i • (B.getD 1 *ᵥ fun r => Q r i) := by
+    rw [← applyB_eq]; exact hpairs i
+  have hni : (fun r => Q r i) ⬝ᵥ (B.getD 1 *ᵥ fun r => Q r i) = 1 := by
+    rw [← applyB_eq]; exact hnormed i
+  rw [add_comm]
+  congr 1
+  · by_cases h : dW.getD 0 i = 0
+    · simp [h]
+    · rw [if_neg h, applyB_eq, hni]
+      have := eig_sparse_eigval_adjoint A (B.getD 1) hA hB (W i) (fun r => Q r i) hqi (by rw [hni]; exact one_ne_zero)
+        (dW.getD 0 i) dA dB (dq i) (dlam i) (hlin i)
+      rw [hni] at this
+      exact this
+  · by_cases h : ∀ r, dQ r i = 0
+    · simp [h]
+    · rw [if_neg h]
+      exact eig_sparse_eigvec_mode_adjoint h2 (zsolveT i) A (B.getD 1) hA hB (W i) (fun r => Q r i) (fun r => dQ r i) hqi hni
+        (hcontract i) (hsimple i) dA dB (dq i) (dlam i) (hlin i) (hnorm i)
+
+/-- the hypotheses on `(dλ, dq)` are never vacuous and never ambiguous: at a simple eigenvalue of a symmetric pencil with
+`qᵀBq = 1`, EVERY perturbation `(dA, dB)` has exactly one first-order perturbation `(dλ, dq)` of the eigenpair -/
+theorem eig_tangent_exists_unique {n : ℕ} (h2 : (2 : α) ≠ 0) (A B : Matrix (Fin n) (Fin n) α) (hA : Aᵀ = A) (hB : Bᵀ = B)
+    (lam : α) (q : Fin n → α) (hq : A *ᵥ q = lam • (B *ᵥ q)) (hqBq : q ⬝ᵥ (B *ᵥ q) = 1)
+    (hsimple : ∀ x, (A - lam • B) *ᵥ x = 0 → ∃ c : α, x = c • q) (dA dB : Matrix (Fin n) (Fin n) α) :
+    ∃ (dq : Fin n → α) (dlam : α),
+      (dA *ᵥ q + A *ᵥ dq - dlam • (B *ᵥ q) - lam • (dB *ᵥ q) - lam • (B *ᵥ dq) = 0 ∧
+        dq ⬝ᵥ (B *ᵥ q) + q ⬝ᵥ (dB *ᵥ q) + q ⬝ᵥ (B *ᵥ dq) = 0) ∧
+      ∀ (dq' : Fin n → α) (dlam' : α),
+        dA *ᵥ q + A *ᵥ dq' - dlam' • (B *ᵥ q) - lam • (dB *ᵥ q) - lam • (B *ᵥ dq') = 0 →
+        dq' ⬝ᵥ (B *ᵥ q) + q ⬝ᵥ (dB *ᵥ q) + q ⬝ᵥ (B *ᵥ dq') = 0 → dlam' = dlam ∧ dq' = dq := by
+  obtain ⟨_, hrange⟩ := pencil_range_of_simple hA hB hq hqBq hsimple
+  obtain ⟨dq, dlam, h1, h2'⟩ := eigen_tangent_exists h2 A B hB lam q hq hqBq hrange dA dB
+  exact ⟨dq, dlam, ⟨h1, h2'⟩, fun dq' dlam' h1' h2'' =>
+    eigen_tangent_unique h2 A B hA hB lam q hq hqBq hsimple dA dB dq' dq dlam' dlam h1' h2'' h1 h2'⟩
+
+/-! ### the sensitivities are derivatives (ℝ or ℂ, real curve parameter) -/
+
+section Deriv
+variable {𝕜 : Type*} [NontriviallyNormedField 𝕜] [NormedAlgebra ℝ 𝕜]
+
+/-- DENSE path, one mode (`_dense_sens`, Lee 1999), real or complex data: along every differentiable curve of matrices
+`A(s), B(s)` carrying a differentiable curve of eigenpairs `A(s) q(s) = λ(s) B(s) q(s)`, `q(s)ᵀB(s)q(s) = 1`,
+`d/ds (wq·q(s) + wλ λ(s)) = ⟪g_A, A'⟫ + ⟪g_B, B'⟫` with `(g_A, g_B)` the model's outputs (no symmetry needed). -/
+theorem eig_dense_adjoint {n : ℕ}
+    (linsolve : Matrix (Fin n ⊕ Unit) (Fin n ⊕ Unit) 𝕜 → (Fin n ⊕ Unit → 𝕜) → (Fin n ⊕ Unit → 𝕜))
+    (A B : ℝ → Matrix (Fin n) (Fin n) 𝕜) (lam : ℝ → 𝕜) (q : ℝ → Fin n → 𝕜) (t : ℝ)
+    (A' B' : Matrix (Fin n) (Fin n) 𝕜) (lam' : 𝕜) (q' : Fin n → 𝕜)
+    (hA : ∀ i j, HasDerivAt (fun s => A s i j) (A' i j) t) (hB : ∀ i j, HasDerivAt (fun s => B s i j) (B' i j) t)
+    (hlam : HasDerivAt lam lam' t) (hq : ∀ i, HasDerivAt (fun s => q s i) (q' i) t)
+    (hE : ∀ᶠ s in 𝓝 t, A s *ᵥ q s = lam s • (B s *ᵥ q s)) (hN : ∀ᶠ s in 𝓝 t, q s ⬝ᵥ (B s *ᵥ q s) = 1)
+    (wq : Fin n → 𝕜) (wlam : 𝕜)
+    (hsolve : leeMatrix (A t) (B t) (lam t) (q t) *ᵥ linsolve (leeMatrix (A t) (B t) (lam t) (q t))
+      (Sum.elim wq fun _ => wlam) = Sum.elim wq fun _ => wlam) :
+    HasDerivAt (fun s => wq ⬝ᵥ q s + wlam * lam s)
+      (pair (denseSensMode linsolve (A t) (B t) (lam t) (q t) wq wlam).1 A'
+        + pair (denseSensMode linsolve (A t) (B t) (lam t) (q t) wq wlam).2 B') t := by
+  obtain ⟨hlin, hnorm⟩ := eigen_curve_tangent hA hB hlam hq hE hN
+  rw [← eig_dense_adjoint_linearised two_ne_zero_of_real_algebra linsolve (A t) (B t) (lam t) (q t) wq wlam hsolve
+    A' B' q' lam' hlin hnorm]
+  have h1 := hasDerivAt_dotProduct (u := fun _ => wq) (u' := 0) (fun i => hasDerivAt_const t (wq i)) hq
+  have h := h1.fun_add (hlam.const_mul wlam)
+  simpa only [zero_dotProduct, zero_add] using h
+
+/-- SPARSE path, eigenvalue sensitivity (`_sparse_eigval_sens`): for a pencil that is symmetric at `t`,
+`d/ds (w λ(s)) = ⟪(w / qᵀBq) q qᵀ, A'⟫ − ⟪(λ w / qᵀBq) q qᵀ, B'⟫`; with `w = 1`, `qᵀBq = 1`: `λ' = qᵀ(A' − λB')q`. -/
+theorem eig_sparse_eigval_is_derivative {n : ℕ}
+    (A B : ℝ → Matrix (Fin n) (Fin n) 𝕜) (lam : ℝ → 𝕜) (q : ℝ → Fin n → 𝕜) (t : ℝ)
+    (A' B' : Matrix (Fin n) (Fin n) 𝕜) (lam' : 𝕜) (q' : Fin n → 𝕜)
+    (hA : ∀ i j, HasDerivAt (fun s => A s i j) (A' i j) t) (hB : ∀ i j, HasDerivAt (fun s => B s i j) (B' i j) t)
+    (hlam : HasDerivAt lam lam' t) (hq : ∀ i, HasDerivAt (fun s => q s i) (q' i) t)
+    (hE : ∀ᶠ s in 𝓝 t, A s *ᵥ q s = lam s • (B s *ᵥ q s)) (hN : ∀ᶠ s in 𝓝 t, q s ⬝ᵥ (B s *ᵥ q s) = 1)
+    (hsymA : (A t)ᵀ = A t) (hsymB : (B t)ᵀ = B t) (w : 𝕜) :
+    HasDerivAt (fun s => w * lam s)
+      (pair (vecMulVec ((w / (q t ⬝ᵥ (B t *ᵥ q t))) • q t) (q t)) A'
+        + pair (vecMulVec (-((lam t * w / (q t ⬝ᵥ (B t *ᵥ q t))) • q t)) (q t)) B') t := by
+  obtain ⟨hlin, _⟩ := eigen_curve_tangent hA hB hlam hq hE hN
+  have hNt : q t ⬝ᵥ (B t *ᵥ q t) = 1 := hN.self_of_nhds
+  rw [← eig_sparse_eigval_adjoint (A t) (B t) hsymA hsymB (lam t) (q t) hE.self_of_nhds (by rw [hNt]; exact one_ne_zero)
+    w A' B' q' lam' hlin]
+  exact hlam.const_mul w
+
+/-- `λ'(t) = q(t)ᵀ (A'(t) − λ(t) B'(t)) q(t)` -/
+theorem eig_eigval_derivative {n : ℕ}
+    (A B : ℝ → Matrix (Fin n) (Fin n) 𝕜) (lam : ℝ → 𝕜) (q : ℝ → Fin n → 𝕜) (t : ℝ)
+    (A' B' : Matrix (Fin n) (Fin n) 𝕜) (lam' : 𝕜) (q' : Fin n → 𝕜)
+    (hA : ∀ i j, HasDerivAt (fun s => A s i j) (A' i j) t) (hB : ∀ i j, HasDerivAt (fun s => B s i j) (B' i j) t)
+    (hlam : HasDerivAt lam lam' t) (hq : ∀ i, HasDerivAt (fun s => q s i) (q' i) t)
+    (hE : ∀ᶠ s in 𝓝 t, A s *ᵥ q s = lam s • (B s *ᵥ q s)) (hN : ∀ᶠ s in 𝓝 t, q s ⬝ᵥ (B s *ᵥ q s) = 1)
+    (hsymA : (A t)ᵀ = A t) (hsymB : (B t)ᵀ = B t) :
+    lam' = q t ⬝ᵥ ((A' - lam t • B') *ᵥ q t) := by
+  have h := eig_sparse_eigval_is_derivative A B lam q t A' B' lam' q' hA hB hlam hq hE hN hsymA hsymB 1
+  have hNt : q t ⬝ᵥ (B t *ᵥ q t) = 1 := hN.self_of_nhds
+  have hu := (hlam.const_mul (1 : 𝕜)).unique h
+  rw [hNt, pair_vecMulVec, pair_vecMulVec] at hu
+  rw [sub_mulVec, smul_mulVec, dotProduct_sub, dotProduct_smul, smul_eq_mul]
+  simp only [div_one, one_smul, mul_one, one_mul, neg_dotProduct, smul_dotProduct, smul_eq_mul] at hu
+  rw [hu]; ring
+
+/-- SPARSE path, one mode of `_sparse_eigvec_sens`: `d/ds (w·q(s)) = ⟪g_A, A'⟫ + ⟪g_B, B'⟫` with the two dyads the code
+adds, for a pencil that is symmetric at `t` with a simple eigenvalue, under the inner-solver contract. -/
+theorem eig_sparse_eigvec_mode_is_derivative {n : ℕ} (zsolveT : (Fin n → 𝕜) → (Fin n → 𝕜))
+    (A B : ℝ → Matrix (Fin n) (Fin n) 𝕜) (lam : ℝ → 𝕜) (q : ℝ → Fin n → 𝕜) (t : ℝ)
+    (A' B' : Matrix (Fin n) (Fin n) 𝕜) (lam' : 𝕜) (q' : Fin n → 𝕜)
+    (hA : ∀ i j, HasDerivAt (fun s => A s i j) (A' i j) t) (hB : ∀ i j, HasDerivAt (fun s => B s i j) (B' i j) t)
+    (hlam : HasDerivAt lam lam' t) (hq : ∀ i, HasDerivAt (fun s => q s i) (q' i) t)
+    (hE : ∀ᶠ s in 𝓝 t, A s *ᵥ q s = lam s • (B s *ᵥ q s)) (hN : ∀ᶠ s in 𝓝 t, q s ⬝ᵥ (B s *ᵥ q s) = 1)
+    (hsymA : (A t)ᵀ = A t) (hsymB : (B t)ᵀ = B t)
+    (hcontract : ∀ r, (∃ x, (A t - lam t • B t)ᵀ *ᵥ x = r) → (A t - lam t • B t)ᵀ *ᵥ zsolveT r = r)
+    (hsimple : ∀ x, (A t - lam t • B t) *ᵥ x = 0 → ∃ c : 𝕜, x = c • q t) (w : Fin n → 𝕜) :
+    HasDerivAt (fun s => w ⬝ᵥ q s)
+      (pair (vecMulVec (sparseEigvecMode zsolveT (B t) (lam t) (q t) w).1.1
+          (sparseEigvecMode zsolveT (B t) (lam t) (q t) w).1.2) A'
+        + pair (vecMulVec (sparseEigvecMode zsolveT (B t) (lam t) (q t) w).2.1
+          (sparseEigvecMode zsolveT (B t) (lam t) (q t) w).2.2) B') t := by
+  obtain ⟨hlin, hnorm⟩ := eigen_curve_tangent hA hB hlam hq hE hN
+  rw [← eig_sparse_eigvec_mode_adjoint two_ne_zero_of_real_algebra zsolveT (A t) (B t) hsymA hsymB (lam t) (q t) w
+    hE.self_of_nhds hN.self_of_nhds hcontract hsimple A' B' q' lam' hlin hnorm]
+  have h1 := hasDerivAt_dotProduct (u := fun _ => w) (u' := 0) (fun i => hasDerivAt_const t (w i)) hq
+  simpa only [zero_dotProduct, zero_add] using h1
+
+end Deriv
+
+/-- the SPARSE module with REAL data, all modes (`_sparse_eigvec_sens`, which contains `_sparse_eigval_sens`): along every
+differentiable curve of real matrices, symmetric at `t`, carrying differentiable curves of the `m` computed eigenpairs
+(each simple, normalised), the seeded output `Σₖ (dQ[:, k]·qₖ(s) + dW[k] λₖ(s))` has the derivative
+`⟪g_A, A'⟫ + ⟪g_B, B'⟫` with `(g_A, g_B)` the DyadCarriers returned by the code — for every dtype flag, `dW = None` or
+given, all-zero seed columns skipped, `B` absent (`Bc ≡ I`) or given. -/
+theorem eig_sparse_sens_is_derivative {n m : ℕ} (Areal Breal : Bool) (zsolveT : Fin m → (Fin n → ℝ) → (Fin n → ℝ))
+    (A Bc : ℝ → Matrix (Fin n) (Fin n) ℝ) (lam : Fin m → ℝ → ℝ) (q : Fin m → ℝ → Fin n → ℝ) (t : ℝ)
+    (A' B' : Matrix (Fin n) (Fin n) ℝ) (lam' : Fin m → ℝ) (q' : Fin m → Fin n → ℝ)
+    (hA : ∀ i j, HasDerivAt (fun s => A s i j) (A' i j) t) (hB : ∀ i j, HasDerivAt (fun s => Bc s i j) (B' i j) t)
+    (hlam : ∀ k, HasDerivAt (lam k) (lam' k) t) (hq : ∀ k i, HasDerivAt (fun s => q k s i) (q' k i) t)
+    (hE : ∀ k, ∀ᶠ s in 𝓝 t, A s *ᵥ q k s = lam k s • (Bc s *ᵥ q k s))
+    (hN : ∀ k, ∀ᶠ s in 𝓝 t, q k s ⬝ᵥ (Bc s *ᵥ q k s) = 1)
+    (hsymA : (A t)ᵀ = A t) (hsymB : (Bc t)ᵀ = Bc t)
+    (B : Option (Matrix (Fin n) (Fin n) ℝ)) (hBt : B.getD 1 = Bc t)
+    (dW : Option (Fin m → ℝ)) (dQ : Matrix (Fin n) (Fin m) ℝ)
+    (hcontract : ∀ k r, (∃ x, (A t - lam k t • Bc t)ᵀ *ᵥ x = r) → (A t - lam k t • Bc t)ᵀ *ᵥ zsolveT k r = r)
+    (hsimple : ∀ k x, (A t - lam k t • Bc t) *ᵥ x = 0 → ∃ c : ℝ, x = c • q k t) :
+    HasDerivAt (fun s => ∑ k, ((fun r => dQ r k) ⬝ᵥ q k s + dW.getD 0 k * lam k s))
+      (pair (sparseEigvecSens (RealPart.id ℝ) Areal Breal zsolveT B (fun k => lam k t) (fun r k => q k t r) dW dQ).1.toDense A'
+        + pair (sparseEigvecSens (RealPart.id ℝ) Areal Breal zsolveT B (fun k => lam k t) (fun r k => q k t r) dW dQ).2.toDense
+            B') t := by
+  have htan := fun k => eigen_curve_tangent hA hB (hlam k) (hq k) (hE k) (hN k)
+  have key := eig_sparse_eigvec_adjoint_sum (two_ne_zero : (2 : ℝ) ≠ 0) (RealPart.id ℝ) Areal Breal zsolveT (A t) B hsymA
+    (by rw [hBt]; exact hsymB) (fun k => lam k t) (fun r k => q k t r)
+    (fun k => by rw [applyB_eq, hBt]; exact (hE k).self_of_nhds)
+    (fun k => by rw [applyB_eq, hBt]; exact (hN k).self_of_nhds) dW dQ
+    (by rw [hBt]; exact hcontract) (by rw [hBt]; exact hsimple) A' B' (fun _ _ _ => rfl) (fun _ _ _ => rfl) q' lam'
+    (fun k => by rw [hBt]; exact (htan k).1) (fun k => by rw [hBt]; exact (htan k).2)
+  have h := hasDerivAt_seed_sum hlam hq (fun k r => dQ r k) (dW.getD 0)
+  have key' : ∑ k, ((fun r => dQ r k) ⬝ᵥ q' k + dW.getD 0 k * lam' k) =
+      pair (sparseEigvecSens (RealPart.id ℝ) Areal Breal zsolveT B (fun k => lam k t) (fun r k => q k t r) dW dQ).1.toDense A'
+        + pair (sparseEigvecSens (RealPart.id ℝ) Areal Breal zsolveT B (fun k => lam k t) (fun r k => q k t r) dW dQ).2.toDense
+            B' := key
+  rw [← key']
+  exact h
+
+/-- the DENSE module with REAL data, all modes (`_dense_sens`): the seeded output has the derivative
+`⟪g_A, A'⟫ + ⟪g_B, B'⟫` with `(g_A, g_B) = _dense_sens(A, B, dW, dQ)` — every dtype flag, `None` seeds, the skip rule,
+`B` absent (`Bc ≡ I`) or given; general (non-symmetric) matrices; `np.linalg.solve` contract for the bordered systems. -/
+theorem eig_dense_sens_is_derivative {n m : ℕ} (Acomplex Bcomplex : Bool)
+    (linsolve : Matrix (Fin n ⊕ Unit) (Fin n ⊕ Unit) ℝ → (Fin n ⊕ Unit → ℝ) → (Fin n ⊕ Unit → ℝ))
+    (A Bc : ℝ → Matrix (Fin n) (Fin n) ℝ) (lam : Fin m → ℝ → ℝ) (q : Fin m → ℝ → Fin n → ℝ) (t : ℝ)
+    (A' B' : Matrix (Fin n) (Fin n) ℝ) (lam' : Fin m → ℝ) (q' : Fin m → Fin n → ℝ)
+    (hA : ∀ i j, HasDerivAt (fun s => A s i j) (A' i j) t) (hB : ∀ i j, HasDerivAt (fun s => Bc s i j) (B' i j) t)
+    (hlam : ∀ k, HasDerivAt (lam k) (lam' k) t) (hq : ∀ k i, HasDerivAt (fun s => q k s i) (q' k i) t)
+    (hE : ∀ k, ∀ᶠ s in 𝓝 t, A s *ᵥ q k s = lam k s • (Bc s *ᵥ q k s))
+    (hN : ∀ k, ∀ᶠ s in 𝓝 t, q k s ⬝ᵥ (Bc s *ᵥ q k s) = 1)
+    (B : Option (Matrix (Fin n) (Fin n) ℝ)) (hBt : B.getD 1 = Bc t)
+    (dW : Option (Fin m → ℝ)) (dQ : Option (Matrix (Fin n) (Fin m) ℝ))
+    (hsolve : ∀ k, ¬((∀ r, dQ.getD 0 r k = 0) ∧ dW.getD 0 k = 0) →
+      leeMatrix (A t) (Bc t) (lam k t) (q k t) *ᵥ
+          linsolve (leeMatrix (A t) (Bc t) (lam k t) (q k t)) (Sum.elim (fun r => dQ.getD 0 r k) fun _ => dW.getD 0 k)
+        = Sum.elim (fun r => dQ.getD 0 r k) fun _ => dW.getD 0 k) :
+    HasDerivAt (fun s => ∑ k, ((fun r => dQ.getD 0 r k) ⬝ᵥ q k s + dW.getD 0 k * lam k s))
+      (pair (denseSens (RealPart.id ℝ) Acomplex Bcomplex linsolve (A t) B (fun k => lam k t) (fun r k => q k t r) dW dQ).1 A'
+        + pair (denseSens (RealPart.id ℝ) Acomplex Bcomplex linsolve (A t) B (fun k => lam k t) (fun r k => q k t r) dW dQ).2
+            B') t := by
+  have htan := fun k => eigen_curve_tangent hA hB (hlam k) (hq k) (hE k) (hN k)
+  have key := eig_dense_adjoint_sum_linearised (two_ne_zero : (2 : ℝ) ≠ 0) (RealPart.id ℝ) linsolve (A t) B
+    (fun k => lam k t) (fun r k => q k t r) dW dQ (by rw [hBt]; exact hsolve) A' B' q' lam'
+    (fun k => by rw [hBt]; exact (htan k).1) (fun k => by rw [hBt]; exact (htan k).2)
+  have e : denseSens (RealPart.id ℝ) Acomplex Bcomplex linsolve (A t) B (fun k => lam k t) (fun r k => q k t r) dW dQ
+      = denseSens (RealPart.id ℝ) true true linsolve (A t) B (fun k => lam k t) (fun r k => q k t r) dW dQ :=
+    denseSens_id_flags _ _ _ _ _ _ _ _ _
+  rw [e, ← key]
+  exact hasDerivAt_seed_sum hlam hq (fun k r => dQ.getD 0 r k) (dW.getD 0)
+
+/-- non-vacuity of the curve hypotheses: `A(s) = [2 + s]`, `B = [1]`, `λ(s) = 2 + s`, `q = (1)` -/
+example : ∃ (A B : ℝ → Matrix (Fin 1) (Fin 1) ℝ) (lam : ℝ → ℝ) (q : ℝ → Fin 1 → ℝ) (A' B' : Matrix (Fin 1) (Fin 1) ℝ)
+    (lam' : ℝ) (q' : Fin 1 → ℝ),
+    (∀ i j, HasDerivAt (fun s => A s i j) (A' i j) 0) ∧ (∀ i j, HasDerivAt (fun s => B s i j) (B' i j) 0) ∧
+    HasDerivAt lam lam' 0 ∧ (∀ i, HasDerivAt (fun s => q s i) (q' i) 0) ∧
+    (∀ᶠ s in 𝓝 (0 : ℝ), A s *ᵥ q s = lam s • (B s *ᵥ q s)) ∧ (∀ᶠ s in 𝓝 (0 : ℝ), q s ⬝ᵥ (B s *ᵥ q s) = 1) ∧
+    lam' ≠ 0 := by
+  refine ⟨fun s => !![2 + s], fun _ => !![1], fun s => 2 + s, fun _ => ![1], !![1], !![0], 1, ![0],
+    ?_, ?_, ?_, ?_, ?_, ?_, one_ne_zero⟩
+  · intro i j
+    fin_cases i; fin_cases j
+    simpa using (hasDerivAt_id (0 : ℝ)).const_add 2
+  · intro i j
+    fin_cases i; fin_cases j
+    simpa using hasDerivAt_const (0 : ℝ) (1 : ℝ)
+  · simpa using (hasDerivAt_id (0 : ℝ)).const_add 2
+  · intro i
+    fin_cases i
+    simpa using hasDerivAt_const (0 : ℝ) (1 : ℝ)
+  · refine Filter.Eventually.of_forall fun s => ?_
+    funext i; fin_cases i; simp [Matrix.mulVec, dotProduct]
+  · refine Filter.Eventually.of_forall fun s => ?_
+    simp [Matrix.mulVec, dotProduct]
 
 end PymotoVerif.C11
